@@ -4,6 +4,6 @@ CONSTANTS
   SkipEmpty = TRUE
 INIT Init
 NEXT Next
-INVARIANTS TypeOK SweepInv AtIsCovering AnswersAscending NoEmptyReported OutsideNothing MismatchPanics
+INVARIANTS TypeOK SweepInv AtIsCovering Ascending NoEmptyReported OutsideNothing MismatchPanics
 PROPERTIES ReadOnly
 CHECK_DEADLOCK FALSE
